@@ -3,7 +3,7 @@ import TunnoxModel.Spec.C11
 /-!
 Line protocol for C11 (see harness/c11/main.go):
   case: c <cmdType> p <0|1> f <conn#> s <snd> r <rcv> t <tok|-> b <0|1> m <ref> g <int> k <ref> d <ref> [e <v> <keys>] [q <fault plan>]
-        W [br <0|1>] [ne <0|1>] conns <n> (<N|U|A|P|F><clientID>[@<node>])* maps <n> (<listen>:<target>:<s|t>:<a|i>)* codes <n> (<target>:<0|1|activator>)* doms <n> (<owner>)*
+        W [br <0|1>] [ne <0|1>] conns <n> (<step>[><step>…][@<node>])*   (step = <N|U|A|P|F><clientID>; histories run in list order, `Model.connsOf`) maps <n> (<listen>:<target>:<s|t>:<a|i>)* codes <n> (<target>:<0|1|activator>)* doms <n> (<owner>)*
   obs:  <run> ~ <run>,  run = ret <0|1> rsp <n|o|f> view <…|-> chg <…|-> dlv <…|-> gone <…|-> [dig <…|->]
         (dig = digests of delivered payloads / stored records; stripped before the comparison with the model)
 The driver runs the `.repaired` variant of the model.
@@ -11,34 +11,21 @@ The driver runs the `.repaired` variant of the model.
 namespace Tunnox.Drv.C11
 open Tunnox.C11
 
-def parseConnId (k : Char) (s : String) (node : Nat) : Option Conn :=
-  match k with
-  | 'N' => s.toNat?.map (fun c => ⟨.bare, c, node⟩)
-  | 'U' => s.toNat?.map (fun c => ⟨.unauth, c, node⟩)
-  -- phase 1 done for client c (challenge pending) / phase 2 failed for client c: registered, NOT authenticated
-  | 'P' => s.toNat?.map (fun c => ⟨.unauth, c, node⟩)
-  | 'F' => s.toNat?.map (fun c => ⟨.unauth, c, node⟩)
-  | 'A' => s.toNat?.map (fun c => if c == 0 then ⟨.unauth, 0, node⟩ else ⟨.auth, c, node⟩)
+def parseStep (s : String) : Option Step :=
+  match s.toList with
+  | 'N' :: _ => some .accept
+  | 'U' :: _ => some .refused
+  | 'P' :: r => (String.ofList r).toNat?.map (fun c => if c == 0 then .refused else .pending c)
+  | 'F' :: r => (String.ofList r).toNat?.map (fun c => if c == 0 then .refused else .failed c)
+  | 'A' :: r => (String.ofList r).toNat?.map (fun c => if c == 0 then .refused else .login c)
   | _ => none
 
-/-- `<N|U|A><clientID>[@<node>]` -/
-def parseConn (s : String) : Option Conn :=
-  match s.toList with
-  | k :: r =>
-    match (String.ofList r).splitOn "@" with
-    | [c] => parseConnId k c 0
-    | [c, n] => n.toNat?.bind (parseConnId k c)
-    | _ => none
-  | [] => none
-
-/-- Connections are listed in the order they shook hands.  When a client logs in again on the same node, the
-session removes the earlier login's control connection from the registry (`handleHandshake`): at command time that
-earlier connection is an accepted connection without control connection. -/
-def normalizeLogins : List Conn → List Conn
-  | [] => []
-  | c :: rest =>
-    (if c.kind == .auth && rest.any (fun d => d.kind == .auth && d.cid == c.cid && d.node == c.node)
-      then { c with kind := .bare } else c) :: normalizeLogins rest
+/-- `<step>[><step>…][@<node>]`, step = `<N|U|A|P|F><clientID>`: the history of one connection -/
+def parseConn (s : String) : Option (Nat × List Step) :=
+  match s.splitOn "@" with
+  | [h] => (h.splitOn ">").mapM parseStep |>.map (fun st => (0, st))
+  | [h, n] => do pure (← n.toNat?, ← (h.splitOn ">").mapM parseStep)
+  | _ => none
 
 /-- A code `t:a` with `a ≥ 2` was activated by client `a` through the real service: the mapping `a → t` it created is
 part of the world, after the listed mappings, in the order of the codes. -/
@@ -99,7 +86,7 @@ def parseCase' : List String → Option Case
     if !rest.isEmpty then none
     let f ← f.toNat?
     if f ≥ conns.length then none
-    pure ⟨⟨normalizeLogins conns, maps ++ derivedMaps codes, codes, doms, noExec, bridge⟩, f,
+    pure ⟨⟨connsOf conns, maps ++ derivedMaps codes, codes, doms, noExec, bridge⟩, f,
       ⟨← ct.toNat?, p == "1", s, r, t, b == "1", ← m.toInt?, ← g.toInt?, ← k.toInt?, ← d.toInt?, 0, extra, faults⟩⟩
   | _ => none
 
